@@ -76,7 +76,8 @@ func vnLexW(mode int) {
 			}
 			prevEnd = off + len(data)
 		}
-		if mode&vnC06 != 0 {
+		if mode&vnC06 != 0 && !sawError {
+			// (only up to the first lexical error: afterwards the lexeme may still hold rejected bytes)
 			// the type of a keyword, punctuator or operator token is the one whose canonical spelling equals its text
 			if IsPunctuator(tt) || IsOperator(tt) || IsReservedWord(tt) || tt >= AsToken && tt <= YieldToken {
 				vAssert(string(tt.Bytes()) == string(data), "canonical-spelling")
